@@ -100,6 +100,7 @@ class Acc:
         self.samples = []
         self.extra = collections.Counter()  # any further named counters
         self.sets = collections.defaultdict(set)  # named sets (e.g. states)
+        self.out = []  # generic results handed back to the main process (e.g. successor states)
 
     def case(self, key=None, outcome=None, nontrivial=True, sample=None):
         self.evaluations += 1
@@ -143,6 +144,7 @@ class Acc:
         self.extra.update(other.extra)
         for k, v in other.sets.items():
             self.sets[k] |= v
+        self.out.extend(other.out)
 
 
 _WORKER_STATE = {}
